@@ -198,6 +198,10 @@ def judgeSeq : P String := do
   let _ops ← tok
   let t ← pTables
   let n ← nat
+  -- assumptions of the theorems on the universe (Spec: `KindWF`, `TyWF`)
+  if !(kindWFUpTo t.ctx t.kinds.size && tyWFUpTo t.ctx t.types.size) then
+    pure "BAD\tthe universe is not numbered children first (KindWF / TyWF)"
+  else
   judgeSteps t n 0 {} (some {}) []
 
 /-- keep the TAB after the verdict class, flatten the rest -/
